@@ -834,6 +834,17 @@ def regex_probe(h, repo):
         shells = [("raw", raw), ("line", b"\n" + raw + b"\n"), ("rtf", b"{\\rtf1\\ansi " + raw + b"}"),
                   ("html", b"<html><body><p>" + raw + b"</p></body></html>"),
                   ("mail", b"From: a@b.c\nTo: d@e.f\nSubject: s\n\n" + raw + b"\n")]
+        # markup: the text in every syntactic position of a document (attribute values of head and body elements, title, comment,
+        # processing instruction, CDATA), with either quote character around attribute values
+        for q in (b'"', b"'"):
+            if q in raw:
+                continue
+            shells.append(("markup-positions(" + q.decode() + ")",
+                           b"<html><head><meta http-equiv=" + q + b"Content-Type" + q + b" content=" + q + raw + q + b"><meta name=" + q + b"description" + q +
+                           b" content=" + q + raw + q + b"><meta charset=" + q + raw + q + b"><title>" + raw + b"</title><link rel=" + q + b"stylesheet" + q + b" href=" + q + raw + q +
+                           b"></head><body><a href=" + q + raw + q + b" title=" + q + raw + q + b">x</a><img alt=" + q + raw + q + b" src=" + q + raw + q +
+                           b"><!-- " + raw + b" --><?x " + raw + b"?><![CDATA[" + raw + b"]]><p class=" + q + raw + q + b">t</p></body></html>"))
+            break
         for kk, fn in exts:
             if fn in seen_fn:
                 continue
